@@ -160,7 +160,7 @@ PROPS = {
         "rule": WORLD_RULE + "; plus three runs biased to the profit-taking / empty-vault / liquidation campaign", "assumptions": WORLD_ASSUMPTIONS,
     },
     "C07": {
-        "lean_modules": ["Perp.Props.LiqTwin", "Perp.Props.EngineGuards", "Perp.Props.SatDBase", "Perp.Props.SatDC07", "Perp.Props.SatDWitness", "Perp.Props.SatD", "Perp.Props.Capstone", "Perp.Props.MonitorSound", "Perp.Props.CapstoneTx", "Perp.Props.MonitorTxSound"],
+        "lean_modules": ["Perp.Props.LiqTwin", "Perp.Props.EngineGuards", "Perp.Props.SatDBase", "Perp.Props.SatDC07", "Perp.Props.SatDWitness", "Perp.Props.SatD", "Perp.Props.Capstone", "Perp.Props.MonitorSound", "Perp.Props.CapstoneTx", "Perp.Props.MonitorTxSound", "Perp.Props.SatDC07Partial"],
         "runs": lambda tier, seed: world_runs(tier, seed, q=1200, qn=8) + pump_runs(tier, seed),
         "rule": WORLD_RULE + "; plus three runs biased to the profit-taking / empty-vault / liquidation campaign", "assumptions": WORLD_ASSUMPTIONS,
     },
@@ -180,7 +180,7 @@ PROPS = {
         "rule": WORLD_RULE, "assumptions": WORLD_ASSUMPTIONS,
     },
     "C13": {
-        "lean_modules": ["Perp.Props.LiqTwin", "Perp.Props.SatGTwin", "Perp.Props.SatGDeposit", "Perp.Props.SatGRun", "Perp.Props.SatGLedger", "Perp.Props.SatGOpen", "Perp.Props.SatGClose", "Perp.Props.SatGOpenTx", "Perp.Props.SatGCloseTx", "Perp.Props.SatGWitness", "Perp.Props.SatG", "Perp.Props.SatGReduce", "Perp.Props.SatGReverseTx", "Perp.Props.SatGReverse", "Perp.Props.SatExtra"],
+        "lean_modules": ["Perp.Props.LiqTwin", "Perp.Props.SatGTwin", "Perp.Props.SatGDeposit", "Perp.Props.SatGRun", "Perp.Props.SatGLedger", "Perp.Props.SatGOpen", "Perp.Props.SatGClose", "Perp.Props.SatGOpenTx", "Perp.Props.SatGCloseTx", "Perp.Props.SatGWitness", "Perp.Props.SatG", "Perp.Props.SatGReduce", "Perp.Props.SatGReverseTx", "Perp.Props.SatGReverse", "Perp.Props.SatGSim", "Perp.Props.SatGHistory", "Perp.Props.SatExtra"],
         "runs": lambda tier, seed: twin_runs(tier, seed) + world_runs(tier, seed, q=120, qn=2, t=1200, tn=6),
         "rule": WORLD_RULE + " || twin mode: two deployments identical except the collateral (cw20 vs native, 6 decimals) driven in lock-step; each native call attaches exactly what the cw20 run pulled from the caller; after every operation positions, vAMM state, engine state and per-account balance deltas are compared",
         "assumptions": WORLD_ASSUMPTIONS,
